@@ -88,7 +88,7 @@ theorem fillStack_spec (a : Nat) (l : List Nat) : ∀ (j : Nat) (seen : List Nat
         · subst e
           simp [stackExtra, hseen, Spec.firstIdx, addP, Slice.push]
         · have e' : ¬ i = src := fun h => e h.symm
-          simp only [if_neg e, stackExtra, List.mem_cons, e', false_or, Spec.firstIdx, if_neg e]
+          simp only [if_neg e, stackExtra, List.mem_cons, e', false_or, Spec.firstIdx]
           by_cases hi : i ∈ seen
           · simp [hi]
           · simp only [hi, if_false]
